@@ -67,8 +67,15 @@ func (c *RawHTTPResponder) GetHeaders() http.Header {
 
 func (c *RawHTTPResponder) writeResponse() error {
 	// If Content-Length is unknown, we must either use chunked encoding or close the connection.
+	// A status that never carries a body (1xx, 204, 304) has nothing to frame: chunked encoding would put
+	// a terminating chunk on the connection that the client reads as the start of the next response.
 	if c.response.ContentLength < 0 {
-		c.response.TransferEncoding = []string{"chunked"}
+		if bodyAllowedForStatus(c.response.StatusCode) {
+			c.response.TransferEncoding = []string{"chunked"}
+		} else {
+			c.response.ContentLength = 0
+			c.response.Body = http.NoBody
+		}
 	}
 
 	if err := c.response.Write(c.writer); err != nil {
@@ -79,6 +86,10 @@ func (c *RawHTTPResponder) writeResponse() error {
 	}
 
 	return nil
+}
+
+func bodyAllowedForStatus(status int) bool {
+	return !(status >= 100 && status <= 199) && status != http.StatusNoContent && status != http.StatusNotModified
 }
 
 func (c *RawHTTPResponder) Write(status int, body io.Reader) (written int64, err error) {
